@@ -1368,6 +1368,13 @@ def cond_key(test_text: str, polarity: bool) -> str:
         e = _simplify_not(ast.UnaryOp(op=ast.Not(), operand=e))
     elif isinstance(e, ast.UnaryOp) and isinstance(e.op, ast.Not):
         e = _simplify_not(e)
+    # the emptiness of a sized value has one key: len(x) == 0 is `not x`, len(x) > 0 is `x`
+    if isinstance(e, ast.Compare) and len(e.ops) == 1 and isinstance(e.left, ast.Call) and isinstance(e.left.func, ast.Name) and e.left.func.id == "len" \
+            and len(e.left.args) == 1 and isinstance(e.comparators[0], ast.Constant) and e.comparators[0].value == 0:
+        if isinstance(e.ops[0], ast.Eq):
+            e = ast.UnaryOp(op=ast.Not(), operand=e.left.args[0])
+        elif isinstance(e.ops[0], (ast.Gt, ast.NotEq)):
+            e = e.left.args[0]
     return alpha_key(ast.fix_missing_locations(ast.Expression(body=e)).body)
 
 
